@@ -53,6 +53,8 @@ def attrib(rng: random.Random, depth=2, p_empty=0.5):
     d = {}
     for _ in range(rng.randrange(1, 4)):
         key = rng.choice(["k", "key2", "coords", "__tag", "n", "nested", "é"]) + rng.choice(["", "1", "_x"])
+        if rng.random() < 0.12:
+            key = rng.choice([0, 1, 7, -3, 2 ** 40])       # integer keys are msgpack-able too
         r = rng.random()
         if depth > 0 and r < 0.2:
             d[key] = attrib(rng, depth - 1, p_empty=0.1)
